@@ -47,7 +47,7 @@ func remoteObserver(w *World, name string) *observer {
 
 func init() {
 	// ---- link/monitor on a remote target vs connection loss / remote termination ------------------
-	faults := []string{"cut", "kill-target"}
+	faults := []string{"cut", "kill-target", "peer-stops"}
 	for _, rel := range []string{"link", "monitor"} {
 		for _, kind := range []string{"pid", "name", "alias", "event", "node"} {
 			for _, fault := range faults {
@@ -57,6 +57,9 @@ func init() {
 				rel, kind, fault := rel, kind, fault
 				tiers := ""
 				if fault == "kill-target" && kind != "pid" {
+					tiers = "thorough"
+				}
+				if fault == "peer-stops" && kind != "pid" && kind != "node" && kind != "event" {
 					tiers = "thorough"
 				}
 				harn.Register(harn.Scenario{Property: "C14", Name: fmt.Sprintf("remote-%s-%s-%s", rel, kind, fault), Tiers: tiers, Run: func(c *harn.Ctx) *harn.Result {
@@ -86,9 +89,12 @@ func init() {
 							}})
 						})
 						nw.ex.ThreadLow("FAULT", func() {
-							if fault == "cut" {
+							switch fault {
+							case "cut":
 								nw.links[0].ca.Close()
-							} else {
+							case "peer-stops":
+								nw.b.n.Stop()
+							default:
 								nw.b.n.Kill(t.pid)
 							}
 						})
@@ -110,7 +116,10 @@ func init() {
 							for _, x := range o.notifs {
 								if strings.HasPrefix(x, want) {
 									n++
-									if !strings.HasSuffix(x, ":"+reason) && !(fault == "kill-target" && strings.HasSuffix(x, ":no connection")) {
+									// a node that stops gracefully first shuts its processes down: a target that ends before
+									// the connection does is reported with its own reason ('shutdown'), which the statement allows
+									if !strings.HasSuffix(x, ":"+reason) && !(fault == "kill-target" && strings.HasSuffix(x, ":no connection")) &&
+										!(fault == "peer-stops" && kind != "node" && strings.HasSuffix(x, ":shutdown")) {
 										nw.ex.Fail("wrong-reason", "notification %q, expected reason %q", x, reason)
 									}
 								} else {
@@ -180,55 +189,65 @@ func init() {
 
 	// ---- requests in flight when the connection is lost --------------------------------------------
 	for _, what := range []string{"call-answered", "call-unanswered", "send-important", "send"} {
-		what := what
-		harn.Register(harn.Scenario{Property: "C14", Name: "inflight-" + what + "-cut", Run: func(c *harn.Ctx) *harn.Result {
-			return harn.Explore(c, harn.Sched{QuickBound: 1, ThoroughBound: 2, Preempt: false, Cache: true, HorizonS: 30, Body: netBody(netOpts{}, func(nw *NetWorld) {
-				rpid := nw.b.spawnProbe("R", probeCfg{onCall: func(p *probe, from gen.PID, ref gen.Ref, m any) (any, error) {
-					if what == "call-unanswered" {
-						return nil, nil
+		for _, fault := range []string{"cut", "peer-stops"} {
+			what, fault := what, fault
+			harn.Register(harn.Scenario{Property: "C14", Name: "inflight-" + what + "-" + fault, Run: func(c *harn.Ctx) *harn.Result {
+				return harn.Explore(c, harn.Sched{QuickBound: 1, ThoroughBound: 2, Preempt: false, Cache: true, HorizonS: 30, Body: netBody(netOpts{}, func(nw *NetWorld) {
+					rpid := nw.b.spawnProbe("R", probeCfg{onCall: func(p *probe, from gen.PID, ref gen.Ref, m any) (any, error) {
+						if what == "call-unanswered" {
+							return nil, nil
+						}
+						return "re:" + fmt.Sprint(m), nil
+					}}, gen.ProcessOptions{})
+					var err error
+					var val any
+					done := false
+					nw.a.spawnProbe("C", probeCfg{onMsg: func(p *probe, from gen.PID, m any) error {
+						switch what {
+						case "call-answered", "call-unanswered":
+							val, err = p.CallWithTimeout(rpid, "q", 2)
+						case "send-important":
+							err = p.SendImportant(rpid, "imp")
+						case "send":
+							err = p.Send(rpid, "plain")
+						}
+						done = true
+						return nil
+					}}, gen.ProcessOptions{})
+					nw.connect()
+					if nw.ex.Failed() {
+						return
 					}
-					return "re:" + fmt.Sprint(m), nil
-				}}, gen.ProcessOptions{})
-				var err error
-				var val any
-				done := false
-				nw.a.spawnProbe("C", probeCfg{onMsg: func(p *probe, from gen.PID, m any) error {
-					switch what {
-					case "call-answered", "call-unanswered":
-						val, err = p.CallWithTimeout(rpid, "q", 2)
-					case "send-important":
-						err = p.SendImportant(rpid, "imp")
-					case "send":
-						err = p.Send(rpid, "plain")
+					nw.ex.Thread("GO", func() { nw.a.n.Send(nw.a.pids["C"], "go") })
+					nw.ex.ThreadLow("FAULT", func() {
+						if fault == "cut" {
+							nw.links[0].ca.Close()
+						} else {
+							nw.b.n.Stop()
+						}
+					})
+					nw.Check = func() {
+						if !done {
+							info, _ := nw.a.n.ProcessInfo(nw.a.pids["C"])
+							nw.ex.Fail("request-hangs", "the %s never returned after the connection was lost (caller state %s)", what, info.State)
+						}
+						got := append(handled(nw.b.recs["R"], "M:"), handled(nw.b.recs["R"], "C:")...)
+						if len(got) > 1 {
+							nw.ex.Fail("delivered-twice", "receiver handled %v", got)
+						}
+						if what == "call-answered" && err == nil && fmt.Sprint(val) != "re:q" {
+							nw.ex.Fail("wrong-reply", "call returned %v", val)
+						}
+						// (when the peer node stops, a message may be acknowledged - it was placed in the mailbox - and
+					// never handled, because its receiver is shut down first: only a cut keeps the receiver alive)
+					if what == "send-important" && err == nil && len(got) != 1 && fault == "cut" {
+							nw.ex.Fail("important-ok-not-delivered", "SendImportant returned nil but the receiver handled %v", got)
+						}
+						nw.Out("done=%v err=%v val=%v got=%v", done, err, val, got)
 					}
-					done = true
-					return nil
-				}}, gen.ProcessOptions{})
-				nw.connect()
-				if nw.ex.Failed() {
-					return
-				}
-				nw.ex.Thread("GO", func() { nw.a.n.Send(nw.a.pids["C"], "go") })
-				nw.ex.ThreadLow("FAULT", func() { nw.links[0].ca.Close() })
-				nw.Check = func() {
-					if !done {
-						info, _ := nw.a.n.ProcessInfo(nw.a.pids["C"])
-						nw.ex.Fail("request-hangs", "the %s never returned after the connection was lost (caller state %s)", what, info.State)
-					}
-					got := append(handled(nw.b.recs["R"], "M:"), handled(nw.b.recs["R"], "C:")...)
-					if len(got) > 1 {
-						nw.ex.Fail("delivered-twice", "receiver handled %v", got)
-					}
-					if what == "call-answered" && err == nil && fmt.Sprint(val) != "re:q" {
-						nw.ex.Fail("wrong-reply", "call returned %v", val)
-					}
-					if what == "send-important" && err == nil && len(got) != 1 {
-						nw.ex.Fail("important-ok-not-delivered", "SendImportant returned nil but the receiver handled %v", got)
-					}
-					nw.Out("done=%v err=%v val=%v got=%v", done, err, val, got)
-				}
-			})})
-		}})
+				})})
+			}})
+		}
 	}
 
 	// ---- incarnations: identifiers of an earlier incarnation of a restarted node -------------------
